@@ -15,8 +15,15 @@ ended, for whatever reason and at whatever point, every call that got as far as 
 resolves at its next poll (with the response if one had been delivered, with an error otherwise),
 and every started search stream's `next()` returns a queued item or `EndOfStream`, never "pending".
 Hypothesis `FreshRun2` (finding F13), discharged for histories with at most 2^31-1 allocations.
+After Unbind (`self.stream.close()`: the sink is closed, no later write can succeed):
+`C04_after_unbind_no_request_is_sent` — a request the driver takes from the queue then is either discarded (its ID
+is no longer reserved) or its write fails and the driver ends; `C04_after_unbind_wire_frozen` — from the moment the
+sink is closed it stays closed and nothing more is ever written, `C04_sink_closed_only_by_unbind` — and it is only
+ever closed by an Unbind that was written; `C04_after_unbind_next_request_ends_connection` — the first non-discarded
+request after Unbind ends the connection, and then nobody is left waiting.
 -/
 import Ldap3V.Lemmas.ConnPend
+import Ldap3V.Lemmas.ConnUnbind
 namespace Ldap3V.Conn
 
 /-- Whatever the state, when the driver ends: the queue and both routing maps are dropped; every
@@ -112,11 +119,14 @@ theorem C04_closed_channel_ends (s : St) (c : Nat) (ch : Chan) (dl : Option Nat)
   · intro it hit; simp [step, hc, ha, hit, hack]
   · intro hn; simp [step, hc, ha, hn, hclosed, hack]
 
-/-- Unbind: the request is written, then the write side is shut down and the sink closed -/
+/-- Unbind: the request is written, then the write side is shut down and the sink closed.  (`hsk`: a write can
+only succeed while the sink is open, i.e. no earlier Unbind has been written; see `C04_after_unbind_no_request_is_sent`
+for what happens to a request taken after that.) -/
 theorem C04_unbind_closes (s : St) (i : Nat) (rest : List Nat) (o : Op) (hr : s.drv = .running)
-    (hq : s.opQ = i :: rest) (ho : s.ops[i]? = some o) (hk : o.kind = .unbind) (hin : s.inUse.contains o.id = true) :
+    (hq : s.opQ = i :: rest) (ho : s.ops[i]? = some o) (hk : o.kind = .unbind) (hin : s.inUse.contains o.id = true)
+    (hsk : s.sinkClosed = false) :
     ∃ s', step s (.drvOp true) = some (s', .none) ∧ s'.sinkClosed = true ∧ s'.wire = s.wire ++ [(o.id, .unbind)] := by
-  simp only [step, hr, hq, ho, hk, hin]
+  simp only [step, hr, hq, ho, hk, hin, hsk]
   simp
 
 /-! ### non-vacuity (tests): two pending operations and a search, then the server disappears -/
@@ -219,6 +229,134 @@ example :
     let s := run (init 100) evs
     s.drv ≠ .running ∧ allocCount evs ≤ 100 ∧ s.ops.map (·.mail) = [.frame ⟨1, 11, 7, true⟩, .dropped, .ack] ∧
     s.ops.map (·.res) = [none, none, some .ack] := by
+  decide
+
+/-! ### after Unbind -/
+
+/-- After Unbind nothing more is sent.  In ANY state whose sink is closed, whatever the driver does with the next
+request it takes from the queue (`drvOp b`, either outcome `b` of the write): the request is discarded because its ID
+is no longer reserved (`skipped`), or the write failed (`b = false`: a successful write, `b = true`, is not an enabled
+step) and the driver has ended with an error; in both cases the wire is as it was. -/
+theorem C04_after_unbind_no_request_is_sent (s s' : St) (b : Bool) (ob : Obs) (hsk : s.sinkClosed = true)
+    (hs : step s (.drvOp b) = some (s', ob)) :
+    (ob = .skipped ∨ (b = false ∧ s'.drv = .endedErr)) ∧ s'.wire = s.wire :=
+  drvOp_closed hsk hs
+
+/-- **whole histories**: once the sink is closed it stays closed and the wire never grows — whatever events follow -/
+theorem C04_after_unbind_wire_frozen (N : Nat) (evs pre post : List Ev) (he : evs = pre ++ post)
+    (hsk : (run (init N) pre).sinkClosed = true) :
+    (run (init N) evs).wire = (run (init N) pre).wire ∧ (run (init N) evs).sinkClosed = true := by
+  subst he
+  have e : run (init N) (pre ++ post) = run (run (init N) pre) post := by simp [run, List.foldl_append]
+  rw [e]
+  exact ⟨(run_closed post _ hsk).2, (run_closed post _ hsk).1⟩
+
+/-- **whole histories**: the sink is only ever closed by an Unbind that was written — in every reachable state with a
+closed sink the LAST request on the wire is an Unbind (with `C04_after_unbind_wire_frozen`: nothing follows it) -/
+theorem C04_sink_closed_only_by_unbind (N : Nat) (evs : List Ev) (hsk : (run (init N) evs).sinkClosed = true) :
+    ∃ w id, (run (init N) evs).wire = w ++ [(id, Kind.unbind)] :=
+  closed_by_unbind evs (init N) (fun h => by simp [init] at h) hsk
+
+/-- **whole histories**, composed with `C04_dead_connection_nobody_waits`: after an Unbind has been written, as soon
+as the driver takes one more request that it does not discard (`ob ≠ .skipped`), the write can only have failed
+(`b = false`), the connection is dead (`endedErr`), nothing was written, and in the resulting state — the state after
+the history `evs ++ [.drvOp false]` — nobody is left waiting: every call that queued its request resolves at its next
+poll, every started search stream's `next()` returns a queued item or `EndOfStream`. -/
+theorem C04_after_unbind_next_request_ends_connection (N : Nat) (evs : List Ev)
+    (hf : FreshRun2 (init N) (evs ++ [.drvOp false])) (hsk : (run (init N) evs).sinkClosed = true)
+    (b : Bool) (s' : St) (ob : Obs) (hs : step (run (init N) evs) (.drvOp b) = some (s', ob)) (hns : ob ≠ .skipped) :
+    let s1 := run (init N) (evs ++ [.drvOp false])
+    b = false ∧ s' = s1 ∧ s1.drv = .endedErr ∧ s1.wire = (run (init N) evs).wire ∧ s1.sinkClosed = true ∧
+    (∀ (i : Nat) (o : Op), s1.ops[i]? = some o → o.phase ≠ .allocated → o.res = none →
+      ∃ r s2, step s1 (.poll i) = some (s2, .res (some r)) ∧
+        (∀ f, o.mail = .frame f → r = if f.good then .frame f else .decodeErr) ∧ (o.mail = .ack → r = .ack) ∧
+        (o.mail = .dropped → r = .recvErr)) ∧
+    (∀ (c : Nat) (ch : Chan) (dl : Option Nat), s1.chans[c]? = some ch →
+      (s1.ops[ch.opIdx]?.bind (·.res)) = some .ack → ch.rxAlive = true →
+      (∃ it, ch.items[ch.taken]? = some it ∧ ∃ s2, step s1 (.recv c dl) = some (s2, .item (some it))) ∨
+      (ch.items[ch.taken]? = none ∧ step s1 (.recv c dl) = some (s1, .closed))) := by
+  intro s1
+  obtain ⟨hcase, hw⟩ := drvOp_closed hsk hs
+  obtain ⟨hb, hdrv⟩ : b = false ∧ s'.drv = .endedErr := by
+    rcases hcase with h | h
+    · exact absurd h hns
+    · exact h
+  subst hb
+  have e1 : s1 = s' := by
+    show run (init N) (evs ++ [.drvOp false]) = s'
+    have e : run (init N) (evs ++ [.drvOp false]) = run (run (init N) evs) [.drvOp false] := by
+      simp [run, List.foldl_append]
+    rw [e]
+    generalize run (init N) evs = s0 at hs
+    simp [run, hs]
+  have hd : s1.drv ≠ .running := by rw [e1, hdrv]; exact fun h => by cases h
+  refine ⟨rfl, e1.symm, by rw [e1]; exact hdrv, by rw [e1]; exact hw, by rw [e1]; exact (step_closed _ hsk hs).1, ?_⟩
+  exact C04_dead_connection_nobody_waits N (evs ++ [.drvOp false]) hf hd
+
+/-- the same for every history with at most `N` (= 2^31-1) allocations, with no schedule hypothesis -/
+theorem C04_after_unbind_next_request_ends_connection_nowrap (N : Nat) (evs : List Ev) (hcount : allocCount evs ≤ N)
+    (hsk : (run (init N) evs).sinkClosed = true)
+    (b : Bool) (s' : St) (ob : Obs) (hs : step (run (init N) evs) (.drvOp b) = some (s', ob)) (hns : ob ≠ .skipped) :
+    let s1 := run (init N) (evs ++ [.drvOp false])
+    b = false ∧ s' = s1 ∧ s1.drv = .endedErr ∧ s1.wire = (run (init N) evs).wire ∧ s1.sinkClosed = true ∧
+    (∀ (i : Nat) (o : Op), s1.ops[i]? = some o → o.phase ≠ .allocated → o.res = none →
+      ∃ r s2, step s1 (.poll i) = some (s2, .res (some r)) ∧
+        (∀ f, o.mail = .frame f → r = if f.good then .frame f else .decodeErr) ∧ (o.mail = .ack → r = .ack) ∧
+        (o.mail = .dropped → r = .recvErr)) ∧
+    (∀ (c : Nat) (ch : Chan) (dl : Option Nat), s1.chans[c]? = some ch →
+      (s1.ops[ch.opIdx]?.bind (·.res)) = some .ack → ch.rxAlive = true →
+      (∃ it, ch.items[ch.taken]? = some it ∧ ∃ s2, step s1 (.recv c dl) = some (s2, .item (some it))) ∨
+      (ch.items[ch.taken]? = none ∧ step s1 (.recv c dl) = some (s1, .closed))) :=
+  C04_after_unbind_next_request_ends_connection N evs
+    (freshRun2_init N _ (by simpa [allocCount, List.countP_append, isAlloc] using hcount)) hsk b s' ob hs hns
+
+/-! ### non-vacuity (tests): a bind-like operation is answered, an Unbind is written, then one more operation is
+issued and the driver takes its request — the write fails (`drvOp false`), the connection ends -/
+def exUnbind : List Ev :=
+  [.alloc .single, .enqueue 0 none, .drvOp true, .srvSend ⟨1, 1, 7, true⟩, .drvResp, .poll 0,
+   .alloc .unbind, .enqueue 1 none, .drvOp true, .poll 1, .alloc .single, .enqueue 2 none]
+
+/-- hypotheses of `C04_after_unbind_no_request_is_sent` at `s = run (init 100) exUnbind`: the sink is closed, the
+request of operation 2 waits at the head of the queue; `drvOp false` is enabled, is not a skip, ends the driver and
+leaves the wire (the bind-like request and the Unbind) alone; `drvOp true` is not enabled -/
+example :
+    let s := run (init 100) exUnbind
+    s.sinkClosed = true ∧ s.drv = .running ∧ s.opQ = [2] ∧ s.wire = [(1, .single), (2, .unbind)] ∧
+    s.ops.map (·.res) = [some (.frame ⟨1, 1, 7, true⟩), some .ack, none] ∧
+    (step s (.drvOp false)).map (fun r => (r.2, r.1.drv, r.1.wire)) = some (.none, .endedErr, [(1, .single), (2, .unbind)]) ∧
+    (step s (.drvOp true)).isNone = true := by
+  decide
+
+/-- … and the other case of `C04_after_unbind_no_request_is_sent`: the operation issued after the Unbind times out
+in the queue and its scrub overtakes it; the driver then discards the request (`skipped`; here even `drvOp true` is
+enabled, nothing being written) and keeps running -/
+example :
+    let s := run (init 100) (exUnbind.take 10 ++ [.alloc .single, .enqueue 2 (some 0), .poll 2, .drvScrub])
+    s.sinkClosed = true ∧ s.opQ = [2] ∧
+    (step s (.drvOp true)).map (fun r => (r.2, r.1.drv, r.1.wire)) = some (.skipped, .running, [(1, .single), (2, .unbind)]) := by
+  decide
+
+/-- `C04_after_unbind_wire_frozen` / `C04_sink_closed_only_by_unbind` with `pre` = the history up to the write of
+the Unbind, `post` = the rest of `exUnbind` followed by the failed write and the caller's poll -/
+example :
+    let pre := exUnbind.take 9
+    let post := exUnbind.drop 9 ++ [.drvOp false, .poll 2]
+    (run (init 100) pre).sinkClosed = true ∧ (run (init 100) pre).wire = [(1, .single), (2, .unbind)] ∧
+    (run (init 100) (pre ++ post)).wire = [(1, .single), (2, .unbind)] ∧
+    (run (init 100) (pre ++ post)).ops.map (·.res) = [some (.frame ⟨1, 1, 7, true⟩), some .ack, some .recvErr] ∧
+    (run (init 100) (exUnbind.take 8)).sinkClosed = false := by
+  decide
+
+/-- `C04_after_unbind_next_request_ends_connection_nowrap` at `evs = exUnbind`, `b = false`: the hypotheses hold, and
+in `run (init 100) (exUnbind ++ [.drvOp false])` the caller of operation 2 finds its reply sender dropped: its next
+poll returns `recvErr` -/
+example :
+    let s1 := run (init 100) (exUnbind ++ [.drvOp false])
+    allocCount exUnbind ≤ 100 ∧ (run (init 100) exUnbind).sinkClosed = true ∧
+    (step (run (init 100) exUnbind) (.drvOp false)).map (·.2) = some .none ∧
+    s1.drv = .endedErr ∧ s1.ops.map (fun o => (o.phase, o.mail, o.res)) =
+      [(.taken, .frame ⟨1, 1, 7, true⟩, some (.frame ⟨1, 1, 7, true⟩)), (.taken, .ack, some .ack), (.taken, .dropped, none)] ∧
+    (step s1 (.poll 2)).map (·.2) = some (.res (some .recvErr)) := by
   decide
 
 end Ldap3V.Conn
